@@ -68,7 +68,12 @@ SOPS = ['==', '!=', '<', '<=', '>', '>=']
 # boundary shapes every history parses: empty and blank in-lists, a list of one, the empty string as value, extremes
 BOUNDARY_TEXTS = ["python_version not in ''", "python_version in ''", "python_full_version not in ''", "python_full_version in ' '", "python_version not in '  '",
                   "implementation_version in ''", "python_version in '3.8'", "python_version not in '3.8'", "os_name == ''", "os_name != ''", "'' in os_name", "os_name in ''",
-                  "os_name not in ''", "'' not in os_name", "python_full_version >= '0'", "python_full_version < '0'", "python_version == '0'", "extra == 'a' and extra != 'a'"]
+                  "os_name not in ''", "'' not in os_name", "python_full_version >= '0'", "python_full_version < '0'", "python_version == '0'", "extra == 'a' and extra != 'a'",
+                  # python_version against literals with one and with three release segments, every operator (the translation to python_full_version
+                  # has a case of its own for each)
+                  "python_version > '3.7.8'", "python_version >= '3.7.8'", "python_version < '3.7.8'", "python_version <= '3.7.8'", "python_version == '3.7.8'",
+                  "python_version != '3.7.8'", "python_version ~= '3.7.8'", "python_version > '3'", "python_version >= '3'", "python_version < '3'", "python_version <= '3'",
+                  "python_version == '3'", "python_version != '3'", "python_version >= '3.7.0'", "python_version < '3.7.0'", "'3.7.8' < python_version", "python_version in '3 3.7'"]
 
 
 def op_key_grid(deprecated=False):
